@@ -615,7 +615,8 @@ def finalize(m, tier):
                 "0 s..2 h, refusals, remote closes before/after the greeting, greetings (own nonce included), incoming "
                 "connections advertising known ports, duplicate keys, announcements of known/unknown/own/IPv6-only addresses, "
                 "garbage; configuration lane with failure limit 4 and documented-value lane (2,900 refused attempts); peers file "
-                "cases and crash points; distinct = distinct event sequences + distinct (failures, gap) pairs + crash points",
+                "cases and crash points; every sequence of 5/6 events from an 8-event alphabet on one address on a slow clock "
+                "(exhaustive small scope); distinct = distinct event sequences + distinct (failures, gap) pairs + crash points",
         "floors": [("events", c.get("events", 0), 10000), ("outgoing_attempts", c.get("outgoing_attempts", 0), 1000),
                    ("reconnect_gaps_checked", c.get("reconnect_gaps_checked", 0), 800),
                    ("reconnects_exactly_at_the_bound", c.get("reconnects_exactly_at_the_bound", 0), 20),
